@@ -96,7 +96,7 @@ func main() {
 			parsed = append(parsed, af)
 			names = append(names, f)
 		}
-		rw := &rewriter{fset: fset, chanNames: map[string]bool{}}
+		rw := &rewriter{fset: fset, chanNames: map[string]bool{}, fields: collectFields(parsed)}
 		for _, af := range parsed {
 			rw.collectChanNames(af)
 		}
@@ -125,6 +125,7 @@ type rewriter struct {
 	fset      *token.FileSet
 	chanNames map[string]bool // identifiers / field names declared with a channel type
 	usedVrt   bool
+	fields    map[string]bool
 	fname     string
 	nsel      int
 }
@@ -230,6 +231,10 @@ func (r *rewriter) file(f *ast.File, name string) {
 				return true
 			})
 		}
+	}
+	// plain field accesses first (on the original shape of the statements)
+	if r.fields != nil && os.Getenv("VERIF_NO_FIELD_INSTR") == "" {
+		(&fieldPass{fields: r.fields, r: r}).instrumentFields(f)
 	}
 	// statements first (select, go, send, range), then expressions
 	r.walk(reflect.ValueOf(f))
